@@ -13,6 +13,8 @@ import (
 	"math/rand"
 	"os"
 	"sort"
+	"strconv"
+	"time"
 )
 
 type Domain struct {
@@ -23,6 +25,18 @@ type Domain struct {
 }
 
 var domains = map[string]Domain{}
+
+// HxScale multiplies every harness timeout. /verif/check re-runs a mismatching case alone with
+// HX_TIMEOUT_SCALE=6 before reporting it, so that a busy machine cannot turn a slow reply into a
+// "hang"; harness code must write its limits as  HxScale(4 * time.Second).
+func HxScale(d time.Duration) time.Duration {
+	if v := os.Getenv("HX_TIMEOUT_SCALE"); v != "" {
+		if n, err := strconv.Atoi(v); err == nil && n > 1 {
+			return d * time.Duration(n)
+		}
+	}
+	return d
+}
 
 func Register(name string, d Domain) { domains[name] = d }
 
